@@ -97,7 +97,7 @@ def handleLine (st : DriverState) (line : String) : DriverState × Json :=
         ({ db := db' }, out)
     | .ok "poll_init" =>
       ({ st with poll := { max := (j.getObjValAs? Nat "max").toOption.getD 0 } }, Json.mkObj [("ok", true)])
-    | .ok "poll_connect" | .ok "poll_disconnect" | .ok "poll_shutdown" =>
+    | .ok "poll_connect" | .ok "poll_disconnect" | .ok "poll_shutdown" | .ok "poll_read" =>
       let op := (j.getObjValAs? String "op").toOption.getD ""
       let g := (j.getObjValAs? String "group").toOption.getD ""
       let i := (j.getObjValAs? String "id").toOption.getD ""
@@ -105,6 +105,7 @@ def handleLine (st : DriverState) (line : String) : DriverState × Json :=
       let pop : Poll.Op := match op with
         | "poll_connect" => .connect g i ((j.getObjValAs? Nat "cap").toOption.getD 0)
         | "poll_disconnect" => .disconnect ((j.getObjValAs? Nat "handle").toOption.getD 0) g i
+        | "poll_read" => .read ((j.getObjValAs? Nat "handle").toOption.getD 0)
         | _ => .shutdown
       let s' := Poll.step s pop
       let newlyClosed := s'.closed.filter fun h => !s.closed.contains h
@@ -140,7 +141,7 @@ def handleLine (st : DriverState) (line : String) : DriverState × Json :=
       let s := st.poll
       (st, Json.mkObj [("len", toJson s.conns.length), ("down", toJson s.down),
         ("conns", Json.arr (s.conns.map fun c => Json.mkObj [("handle", toJson c.handle), ("group", c.group), ("id", c.id), ("buf", toJson c.buf)]).toArray),
-        ("closed", toJson (s.closed.mergeSort (· ≤ ·)))])
+        ("closed", toJson (s.closed.mergeSort (· ≤ ·))), ("log", toJson s.log)])
     | .ok op => (st, Json.mkObj [("fatal", s!"unknown op {op}")])
 
 partial def loop (h : IO.FS.Stream) (out : IO.FS.Stream) (st : DriverState) : IO Unit := do
